@@ -257,6 +257,53 @@ def run_config(acc, shape, src, od, S, tier):
     return plans
 
 
+def repeated_runs(acc):
+    """Nesting equals inlining on EVERY run of one graph object, not only the first: inner functions mutate their
+    mutable signature defaults (list, dict member), the flat graph and each nested form (depth 1-3, plain and with a
+    renamed wrapper input, inner default surfacing through the wrapper) are run three times on one runner."""
+    f = T.fn("f", ["x", "bag"], ["out"], defaults={"bag": {"$list": []}}, behav={"py": "(bag.append(x), tuple(bag))[1]"})
+    g = T.fn("g", ["out", "seen"], ["res"], defaults={"seen": {"$list": [["s", 0]]}}, behav={"py": "(seen.append(len(seen)), (out, tuple(seen)))[1]"})
+    flat = T.prog([f, g])
+    forms = {"flat": (flat, {})}
+    w1 = wrap(flat, ["f"], "w1")
+    forms["depth1"] = (w1, {})
+    w1r = copy.deepcopy(w1)
+    w1r["nodes"][0]["rename_in"] = {"x": "xx"}
+    forms["depth1-renamed"] = (w1r, {"x": "xx"})
+    w2 = wrap(w1, ["w1"], "w2")
+    forms["depth2"] = (w2, {})
+    w2r = wrap(w1r, ["w1"], "w2")
+    w2r["nodes"][0]["rename_in"] = {"xx": "xxx"}
+    forms["depth2-renamed-twice"] = (w2r, {"x": "xxx"})
+    both = wrap(flat, ["f", "g"], "wb")
+    forms["both-wrapped"] = (both, {})
+    forms["depth3"] = (wrap(w2, ["w2", "g"], "w3"), {})
+    for runner in ("sync", "async"):
+        ref = None
+        for name, (prog, rn) in forms.items():
+            h = H()
+            try:
+                gr = build(T.set_async(prog, runner == "async"), h)
+            except Exception as e:  # noqa: BLE001
+                acc.violation({"symptom": "nested-graph-rejected", "repeated": True}, {"repeated_runs": name, "runner": runner}, f"{name}: rejected at construction: {type(e).__name__}: {e}")
+                continue
+            views = []
+            for k in range(3):
+                x = execute(prog, {rn.get("x", "x"): ["prov", "x"]}, runner=runner, h=h, graph=gr, error_handling="continue")
+                acc.evaluations += 1
+                views.append((x.status, None if x.result is None else tuple(sorted(x.result.values.items(), key=repr))))
+            acc.key(("repeated", name, runner))
+            if name == "flat":
+                ref = views
+                if len(set(views)) != 1:
+                    acc.counters["flat_graph_runs_differ"] += 1  # (C18's business; recorded, the comparison below still applies run by run)
+                continue
+            for k, (v, r) in enumerate(zip(views, ref)):
+                if v != r:
+                    acc.violation({"symptom": "values-differ", "repeated_run": True, "form": name.split("-")[0]}, {"repeated_runs": name, "runner": runner}, f"{name}, run #{k + 1} of the same graph object: {jsonable(v)} but the flat graph's run #{k + 1} gives {jsonable(r)}", size=k)
+                    break
+
+
 def shards(tier, seed):
     k = 64 if tier == "quick" else 256
     return [(tier, seed, s, k) for s in range(k)]
@@ -265,6 +312,8 @@ def shards(tier, seed):
 def run_shard(shard):
     tier, seed, s, k = shard
     acc = Acc()
+    if s == 0:
+        repeated_runs(acc)
     for ci, (shape, src, od, S) in enumerate(configs(tier, seed)):
         if ci % k != s:
             continue
@@ -279,6 +328,10 @@ def coverage_extra(acc, tier, seed):
 
 
 def replay(rep):
+    if "repeated_runs" in rep:
+        acc = Acc()
+        repeated_runs(acc)
+        return [v["message"] for v in acc.violations.values()]
     ref = observe(rep["flat"], rep["flat_inputs"], rep["runner"])
     got = observe(rep["nested"], rep["inputs"], rep["runner"])
     return [m for _, m in compare(ref, got, rep["rn_in"], rep["rn_out"])]
